@@ -406,10 +406,18 @@ class Interp:
         return g
 
     def array_method(self, obj, name, args):
+        if name == 'concat' and isinstance(obj, CondVal):
+            # (c ? p : q).concat(x): both alternatives are arrays here (the generator parenthesises a conditional path before the tail)
+            return CondVal(obj.c, self.array_method(obj.a, name, args), self.array_method(obj.b, name, args))
         if name == 'concat':
             segs = self.segs_of(obj)
             for a in args:
                 segs += self.segs_of(a, as_concat_arg=True)
+            if all(k == 'elems' for k, _ in segs):
+                flat = []
+                for _, x in segs:
+                    flat += x
+                return JArr(flat)
             return ArrLit(segs)
         if name == 'slice' and isinstance(obj, CondVal):
             return CondVal(obj.c, self.array_method(obj.a, name, args), self.array_method(obj.b, name, args))
